@@ -329,6 +329,28 @@ int main(int argc, char **argv)
     }
     hwloc_topology_destroy(A2); hwloc_topology_destroy(A); free(xa);
   }
+  /* diffs of every length 1..N (N = 320, 640 thorough): B = A with the info value of the first k PUs replaced.  The exported
+   * document crosses every size boundary of the exporters on the way (seeded change C16-nolibxml-bigdiff: a stale length
+   * after the built-in exporter had to enlarge its buffer, 16 kB = about 100 entries) */
+  {
+    int N = MC.thorough ? 640 : 320; char desc[32]; snprintf(desc, sizeof(desc), "pu:%d", N);
+    hwloc_topology_t A = NULL; hwloc_topology_init(&A); hwloc_topology_set_synthetic(A, desc);
+    if (hwloc_topology_load(A) == 0) {
+      for (int i = 0; i < N; i++) hwloc_obj_add_info(hwloc_get_obj_by_type(A, HWLOC_OBJ_PU, (unsigned)i), "bulk", "old-value");
+      for (int k = 1; k <= N; k++, idx++) {
+        if (!mc_mine(idx) || mc_deadline()) continue;
+        if (!mc_case("A=%s with an info on every PU, B=A with the info value of the first %d PUs replaced", desc, k)) continue;
+        hwloc_topology_t B = NULL;
+        if (hwloc_topology_dup(&B, A) < 0) continue;
+        for (int i = 0; i < k; i++) { char v[48]; snprintf(v, sizeof(v), "new-value-of-pu-%d-<&>", i); hwloc_modify_infos(&hwloc_get_obj_by_type(B, HWLOC_OBJ_PU, (unsigned)i)->infos, HWLOC_MODIFY_INFOS_OP_REPLACE, "bulk", v); }
+        if (MC_TRY(120000)) { check_pair(A, B, 1, k); mc_try_end(); }
+        mc_report_faults("bulk-pair");
+        mc_count("bulk_diffs", 1); MC.states++;
+        hwloc_topology_destroy(B);
+      }
+    }
+    hwloc_topology_destroy(A);
+  }
   if (mc_leak_check()) mc_violation("c16.leak", "leak at the end of part %d", MC.part);
   return mc_finish(1);
 }
